@@ -70,6 +70,9 @@ func HarnessC16Equals() {
 // HarnessC16Copy: Copy equals the original, owns its metadata, is unsettled and carries no context.
 func HarnessC16Copy() {
 	a := symMessage("a", vrt.Bound("maxmeta", 2), vrt.Bound("maxpayload", 2))
+	if vrt.Bool("a.metadata.nil") {
+		a.Metadata = nil // a message built as a struct literal: its copy still owns a (writable) metadata map
+	}
 	c := a.Copy()
 	vrt.Assert(c != a, "Copy returns a new message")
 	vrt.Assert(specEquals(a, c), "Copy has the same UUID, payload and metadata")
@@ -84,6 +87,9 @@ func HarnessC16Copy() {
 	vrt.Assert(had == has && before == after, "mutating the copy's metadata leaves the original untouched")
 	k2, v2 := vrt.Str("mut.k2"), vrt.Str("mut.v2")
 	cb, chad := c.Metadata[k2]
+	if a.Metadata == nil {
+		a.Metadata = Metadata{}
+	}
 	a.Metadata.Set(k2, v2)
 	ca, chas := c.Metadata[k2]
 	vrt.Assert(chad == chas && cb == ca, "mutating the original's metadata leaves the copy untouched")
